@@ -20,8 +20,8 @@ ID = 'C14'
 LEVEL = 'exploration'
 RULE = (
     'tracks: 12 generators (vibration + drift, 3 atoms Li/Li/S, steps < 1/2 cell) and 4 "all atoms move '
-    'identically" tracks x frames {8,9,16} x LATTICES x k in {0.5,2,3.7} x s in {0.5,2,10} x z in {1,2,-1,3} x '
-    'dimensions {1,2,3} x T in {100,300,1000} x parts {1,2,3}; evaluation = one metric value compared; distinct = '
+    'identically" tracks x frames {8,9,16} x LATTICES (incl. a left-handed cell) x k in {0.5,2,3.7,1e-4,1e3} x s in {0.5,2,10} x z in {1,2,-1,3} x '
+    'dimensions {1,2,3} x T in {100,300,1000} x parts {1,2,3} and {T-3,T-1} (single-frame parts); evaluation = one metric value compared; distinct = '
     'distinct (track, lattice, metric values) tuples'
 )
 LEVEL_TEXT = (
